@@ -71,6 +71,9 @@ def run(chk):
                 chain.append(b)
             if any(b.get("virtual") for rr in chain for b in rr["bases"]):
                 probs.append("virtual base")
+            mutable_fields = [f["n"] for rr in chain for f in rr["fields"] if f.get("mutable")]
+            if mutable_fields:
+                probs.append("mutable member(s) %s: hidden state that const accessors may change" % mutable_fields)
             if not r.get("trivially_copyable"):
                 probs.append("not trivially copyable")
             if not r.get("standard_layout"):
